@@ -75,6 +75,7 @@ func unHexDot(s string) []byte {
 
 func runOps(h hash.Hash, ops string) string {
 	var outs []string
+	var last []byte // the slice returned by the previous Sum
 	for _, o := range strings.Split(ops, ",") {
 		f := strings.Split(o, ":")
 		switch f[0] {
@@ -91,6 +92,7 @@ func runOps(h hash.Hash, ops string) string {
 		case "S":
 			orig := unHexDot(f[2])
 			var in []byte
+			spare := -1
 			switch f[1] {
 			case "n":
 				in = nil
@@ -102,11 +104,47 @@ func runOps(h hash.Hash, ops string) string {
 			case "c":
 				in = make([]byte, len(orig), 64)
 				copy(in, orig)
+			case "p":
+				in = last
+				orig = append([]byte{}, last...)
+			default:
+				if strings.HasPrefix(f[1], "g") {
+					spare, _ = strconv.Atoi(f[1][1:])
+					in = make([]byte, len(orig), len(orig)+spare)
+					copy(in, orig)
+					full := in[:cap(in)]
+					for i := len(in); i < len(full); i++ {
+						full[i] = 0xAA
+					}
+				} else {
+					return "BADCASE"
+				}
 			}
 			res := h.Sum(in)
+			last = res
 			kept := 0
 			if bytes.Equal(in, orig) {
 				kept = 1
+			}
+			if spare >= 0 {
+				full := in[:cap(in)]
+				tail := full[len(in):]
+				allAA := func(b []byte) bool {
+					for _, x := range b {
+						if x != 0xAA {
+							return false
+						}
+					}
+					return true
+				}
+				wr := "w2"
+				if len(tail) >= 32 && len(res) == len(in)+32 && bytes.Equal(tail[:32], res[len(in):]) && allAA(tail[32:]) {
+					wr = "w1"
+				} else if allAA(tail) {
+					wr = "w0"
+				}
+				outs = append(outs, "s"+hex.EncodeToString(res)+"/"+strconv.Itoa(kept)+"/"+wr)
+				continue
 			}
 			outs = append(outs, "s"+hex.EncodeToString(res)+"/"+strconv.Itoa(kept))
 		case "R":
@@ -228,7 +266,11 @@ func genOps(r *hx.Rng, maxOps int) string {
 		case k < 10:
 			ops = append(ops, "W:"+hexOrDot(r.Bytes(genWriteLen(r))))
 		case k < 18:
-			switch r.Intn(4) {
+			switch r.Intn(7) {
+			case 4, 5: // a prefix of a given length with a given number of spare bytes
+				ops = append(ops, fmt.Sprintf("S:g%d:%s", r.Pick(gridSpare), hexOrDot(r.Bytes(r.Pick(gridLen)))))
+			case 6: // the previous digest as prefix
+				ops = append(ops, "S:p:.")
 			case 0:
 				ops = append(ops, "S:n:.")
 			case 1:
@@ -290,6 +332,10 @@ func genPartition(r *hx.Rng, msg []byte) string {
 
 var keyLens = []int{0, 1, 63, 64, 65, 200}
 
+// Sum(prefix): prefix length x spare capacity around Size = 32
+var gridLen = []int{0, 1, 31, 32, 33, 63, 64, 100}
+var gridSpare = []int{0, 1, 31, 32, 33}
+
 func gen(seed uint64, tier string, o *hx.Out) {
 	r := hx.NewRng(seed)
 	thorough := tier == "thorough"
@@ -346,6 +392,19 @@ func gen(seed uint64, tier string, o *hx.Out) {
 		}
 		for n := 520; n >= 0; n-- {
 			emit(fmt.Sprintf("L %d %d %d", next(), sseed+1, n))
+		}
+	}
+	// the whole (len, spare) grid of Sum prefixes, each followed by Sum(nil) and two chained h.Sum(previous result)
+	for _, l := range gridLen {
+		for _, sp := range gridSpare {
+			emit(fmt.Sprintf("H %d W:%s,S:g%d:%s,S:n:.,S:p:.,S:p:.,S:g%d:%s", next(), hexOrDot(r.Bytes(r.Intn(70))), sp,
+				hexOrDot(r.Bytes(l)), sp, hexOrDot(r.Bytes(l))))
+		}
+	}
+	for _, kl := range []int{0, 65} {
+		for _, sp := range gridSpare {
+			emit(fmt.Sprintf("N %d %s W:%s,S:g%d:%s,S:p:.", next(), hexOrDot(r.Bytes(kl)), hexOrDot(r.Bytes(r.Intn(70))), sp,
+				hexOrDot(r.Bytes(r.Pick(gridLen)))))
 		}
 	}
 	for i := 0; i < nH; i++ {
